@@ -139,6 +139,18 @@ def main(argv=None):
     else:
         results = [_worker(j) for j in jobs]
 
+    # lemmas used by the proofs are themselves proved (structural induction) on every run
+    lemma_results = []
+    lp = getattr(mod, 'lemma_proofs', None)
+    if lp is not None:
+        for lname, thunk in lp():
+            tl = time.time()
+            try:
+                cases = thunk()
+            except BaseException as e:      # pylint: disable=broad-except
+                cases = [('crash', '%s: %s' % (type(e).__name__, e))]
+            lemma_results.append((lname, cases, time.time() - tl))
+
     known = load_known(prop)
     os.makedirs(os.path.join(ROOT, 'replays', prop), exist_ok=True)
     n_ob = n_proved = 0
@@ -194,6 +206,18 @@ def main(argv=None):
                 known_hits.append((hit, o, rr))
             else:
                 violations.append((o, rp, rr))
+
+    lemma_failed = []
+    for lname, cases, tl in lemma_results:
+        solver_time += tl
+        for case, verdict in cases:
+            n_ob += 1
+            if verdict == 'unsat':
+                n_proved += 1
+            else:
+                lemma_failed.append('%s/%s: %s' % (lname, case, verdict))
+    for lf in lemma_failed:
+        errors.append(('lemma', ('checker-error', 'lemma not proved: ' + lf)))
 
     # stand-in for undecided obligations
     stand = getattr(mod, 'bounded_standin', None)
@@ -301,6 +325,8 @@ def main(argv=None):
         'samples': samples or [{'note': 'no discharged obligation'}],
         'explanation': expl,
         'functions_under_contract': functions,
+        'lemmas': [{'lemma': n, 'cases': len(c), 'proved': sum(1 for _, v in c if v == 'unsat'),
+                    'time_s': round(t, 3)} for n, c, t in lemma_results],
         'backends': backends,
         'solver_time_s': round(solver_time, 3),
         'bounded': bounded,
